@@ -17,7 +17,7 @@ namespace Sidetree.Props.C12
 open Sidetree Sidetree.Effects
 
 /-- a disciplined program leaves every pre-existing object untouched (restated from `Effects`) -/
-theorem disciplined_programs_do_not_write_inputs (inputs : List String) (p : Prog) (s : State)
+theorem disciplined_programs_do_not_write_inputs {α : Type} [DecidableEq α] (inputs : List α) (p : Prog α) (s : State α)
     (hbound : ∀ n o, s.env n = some o → n ∈ inputs) (hd : Disciplined inputs p = true) :
     ∀ o, o < s.next → (exec s p).heap o = s.heap o :=
   disciplined_sound inputs p s hbound hd
